@@ -143,9 +143,15 @@ func convRun(args []string) {
 				sec = rnd.Int63n(253402300799+62135596800) - 62135596800
 			}
 			t := time.Unix(sec, 0).UTC()
+			// an instant is the same instant in any location: three of four are presented in a non-UTC zone
+			if zones := []int{0, 3600, -5 * 3600, 5*3600 + 45*60}; i%4 != 0 {
+				t = t.In(time.FixedZone("zone", zones[i%4]))
+			}
 			a := model.NewAbsoluteOrRelativeTimeTypeFromTime(t)
 			back, err := a.GetTime()
-			emit(map[string]any{"t": "inst", "text": string(*a), "eq": err == nil && back.Equal(t)})
+			d := model.NewDateTimeTypeFromTime(t)
+			back2, err2 := d.GetTime()
+			emit(map[string]any{"t": "inst", "text": string(*a), "eq": err == nil && back.Equal(t) && err2 == nil && back2.Equal(t)})
 		}
 		// 5. relative end time of a time period: read back as the remaining duration to the second
 		for i := 0; i < 300; i++ {
